@@ -90,6 +90,20 @@ theorem request_fields_faithful (r : Request) (h : r.WF) (rest : Bytes) :
 theorem request_type (r : Request) : requestType r = (match r.dest with | .v4 .. => 8 | .v6 _ => 128) := by
   cases h : r.dest <;> simp [requestType, Ip.Ip.isV6, h]
 
+/-- **Requested TTL / hop limit on the wire**: the echo request that leaves the endpoint for a record
+goes to the record's destination, with the record's TTL / hop limit, identifier, sequence number and data
+size, whatever follows the record in the stream -/
+theorem request_leaves_as_requested (r : Request) (h : r.WF) (rest : Bytes) :
+    ∃ q, parseRequest (encodeRequest r ++ rest) = .ok q ∧
+      outgoing q = ⟨r.dest, r.ttl, (match r.dest with | .v4 .. => 8 | .v6 _ => 128), r.id, r.seq, r.dataSize⟩ := by
+  refine ⟨r, request_fields_faithful r h rest, ?_⟩
+  simp only [outgoing, request_type]
+
+example : (⟨7, .v4 127 0 0 1, 3, 5, 24⟩ : Request).WF ∧
+    (outgoing ⟨7, .v4 127 0 0 1, 3, 5, 24⟩).hopLimit = 5 := by
+  refine ⟨?_, rfl⟩
+  simp [Request.WF]
+
 /-- **No panic, bounded buffer**: from any buffer shorter than a record, feeding any chunk
 neither trips an assertion nor leaves more than 22 buffered bytes -/
 theorem decoder_step_safe (buffer chunk : Bytes) (hb : buffer.length < reqSize) :
